@@ -289,6 +289,13 @@ func enforce(c *Case) {
 		installs = nil
 		instMu.Unlock()
 	}
+	if c.OuterPolicy != nil {
+		err := seccomp.LoadFilter(seccomp.Filter{NoNewPrivs: true, Policy: *c.OuterPolicy.Policy()})
+		emit(map[string]any{"ev": "outer", "err": errString(err)})
+		instMu.Lock()
+		installs = nil
+		instMu.Unlock()
+	}
 	emit(map[string]any{"ev": "start", "pid": os.Getpid(), "tid": syscall.Gettid(), "goarch": goarch, "before": statusFields(syscall.Gettid())})
 	if c.PauseBetweenProbes {
 		// other threads exist and are idle, so a goroutine that is not locked has somewhere to go
